@@ -502,7 +502,9 @@ def judge(text, o, tree, stats=None):
 # ---------------------------------------------------------------------------------------------------
 # payload corpus
 # ---------------------------------------------------------------------------------------------------
-PAYLOADS = ['<b>x</b>', '&', '"', "'", '>', '<!--', '</span>', 'a  b', '&amp;', '<script>alert(1)</script>']
+PAYLOADS = ['<b>x</b>', '&', '"', "'", '>', '<!--', '</span>', 'a  b', '&amp;', '<script>alert(1)</script>',
+            # text that means something to a formatting operator (printf-style and str.format): it is data too
+            '100% A', '%%', '{0}%s']
 FOREIGN = ['a~b*c:d', '<~*:&>']            # only usable under non-standard delimiters
 DELIMS = [('~', '*', ':'), ('!', '|', '>'), ('!', '|', '}'), ('<', '&', '>')]
 QUICK_MAPS = ('834.4010.X095.A1.xml', '837.5010.X222.A1.xml')
